@@ -20,7 +20,8 @@ P("C10",
              "TickingComponents on the real serial engine with the action log taken in real order through engine/port hooks, and "
              "direct Send/RetrieveIncoming/conn.Tick() schedules); the hand-written tick model, tied by exact equality of every "
              "send outcome, retrieved message, per-tick delivery log, per-port snapshot and cursor. holds_on is an independent "
-             "trace predicate (right port, no duplicate, per-source / per-destination prefix order, counts = final buffer sizes); "
+             "trace predicate (right port, no duplicate, per-source / per-destination prefix order, counts = final buffer sizes, and - for "
+             "engine runs, which go on until the event queue is exhausted - no outgoing head left whose destination has room); "
              "no link theorem between check_case and holds_on is proved for this property.",
   assumptions=["ports plugged into one connection have distinct names (the model keeps Go's 'last PlugIn wins' map semantics, the "
                "harness never plugs duplicates)",
